@@ -423,3 +423,109 @@ def n2b_remap_guard(ctx):
                 why += " — the test refreshes when the segment is INSIDE the mapping"
             r.add(f, "the re-mapping is decided by the segment's end against the mapped length", ok, where(b, s), why)
     return r
+
+
+# ---------------------------------------------------------------------------------------------
+# V9: the parser imposes no size limit of its own; A1: allocation requests on the receive path
+
+
+def v9_no_size_limit(ctx):
+    r = RuleResult(
+        "V9",
+        "a well-formed frame is not rejected for its size: in Frame::check / Frame::parse (and their nested forms) a length announced on the wire (a value that comes from get_integer) is compared only with what is left in the buffer (Buf::remaining / a slice length) or with the constants 0 and -1 (the sign and the null marker) — a comparison with any other bound is a size limit the protocol does not have: SET with a larger value gets no answer and the connection is closed",
+        floor=1,
+    )
+    prog = ctx.prog
+    fam = [b for b in shipped_bodies(prog) if strip_generics(b.root).startswith("net::frame::Frame::") and not b.rec.get("is_test")]
+    n = 0
+
+    def wire_len(o):
+        return bool(origin_mentions(o, lambda y: y[0] == "call" and y[1] and y[1].endswith("net::frame::get_integer")))
+
+    def buffer_bound(o):
+        return bool(origin_mentions(o, lambda y: y[0] == "call" and y[1] and (y[1].endswith("::remaining") or y[1].endswith("slice::len") or y[1].endswith("::len"))))
+
+    for b in fam:
+        for s in sorted(b.live_blocks()):
+            if b.blocks[s]["cleanup"]:
+                continue
+            info = b.switch_info(s)
+            if not info or info["kind"] != "bool":
+                continue
+            if "macro" in (b.blocks[s]["term"].get("exp") or ""):
+                continue
+            cmp, neg = bool_switch_comparison(b, s)
+            if cmp is None:
+                continue
+            lhs, rhs = expand(prog, cmp[2]), expand(prog, cmp[3])
+            if not (wire_len(lhs) or wire_len(rhs)):
+                continue
+            other = rhs if wire_len(lhs) and not wire_len(rhs) else (lhs if wire_len(rhs) and not wire_len(lhs) else None)
+            n += 1
+            if other is None:
+                ok, why = buffer_bound(lhs) or buffer_bound(rhs), "both sides derive from announced lengths"
+            else:
+                c = const_int(other)
+                ok = buffer_bound(other) or c in (0, -1)
+                why = "compared with %s" % origin_str(other)[:80]
+            r.add(fam_name(b), "announced length compared only with the buffer or 0/-1", ok, where(b, s), why if ok else why + " — a bound that is neither the bytes at hand nor the sign/null marker: frames beyond it are refused although they are well-formed")
+    return r
+
+
+A1_SIZED = ("reserve", "reserve_exact", "try_reserve", "try_reserve_exact", "with_capacity", "with_capacity_in", "resize", "from_elem", "repeat", "set_len", "zeroed")
+
+
+def a1_receive_allocations(ctx):
+    r = RuleResult(
+        "A1",
+        "no allocation on the network path is sized by the peer: in net::connection, net::command, net::server, net::client and shutdown every call that asks for memory of an explicit size (reserve*, with_capacity, resize, vec![x; n], repeat) passes a compile-time constant, the length of something already in memory (len()/remaining(), possibly under min) — never a number computed from cursor positions or announced lengths. (Inside Frame::check/parse the same is decided by N1-alloc.) One header announcing an absurd length must not make the process ask the allocator for it: a failed allocation aborts the whole server, not one connection",
+        floor=1,
+    )
+    prog = ctx.prog
+    mods = ("net::connection::", "net::command::", "net::server::", "net::client::", "shutdown::")
+    for b in shipped_bodies(prog):
+        root = strip_generics(b.root)
+        if not root.startswith(mods):
+            continue
+        live = b.live_blocks()
+        for bi, t in b.calls():
+            if bi not in live or b.blocks[bi]["cleanup"]:
+                continue
+            if "macro" in (t.get("fn_exp") or "") and "vec" not in (t.get("fn_exp") or ""):
+                continue
+            cn = strip_generics(t.get("callee")) or ""
+            last = cn.split("::")[-1]
+            if last not in A1_SIZED or cn.startswith("net::") or cn.startswith("storage::"):
+                continue
+            # the size argument: the last integer-typed argument
+            tys = t.get("arg_tys") or []
+            idx = [i for i, ty in enumerate(tys) if ty in ("usize", "u64", "u32")]
+            if not idx:
+                continue
+            i = idx[-1]
+            o = peel(expand(prog, arg_origin(b, t, i)))
+            c = const_int(o)
+
+            def in_memory(x):
+                x = peel(x)
+                if x[0] == "call" and x[1] and (x[1].endswith("::len") or x[1].endswith("::remaining") or x[1].endswith("::capacity")):
+                    return True
+                if x[0] == "call" and x[1] and x[1].endswith("::min"):
+                    return any(in_memory(a) or const_int(a) is not None for a in x[2])
+                return False
+
+            def const_expr(x):
+                x = peel(x)
+                if const_int(x) is not None:
+                    return True
+                if x[0] in ("field", "cast"):
+                    return const_expr(x[1])
+                if x[0] == "bin":
+                    return const_expr(x[2]) and const_expr(x[3])
+                return False
+
+            if c is None and const_expr(o):
+                c = origin_str(o)[:60]
+            ok = c is not None or in_memory(o)
+            r.add(fam_name(b), "%s size is a constant or the length of data in memory" % last, ok, where(b, bi), ("constant %s" % c if c is not None else origin_str(o)[:80]) if ok else "sized by %s — a value the peer controls (announced length / cursor position): a 20-byte header can make the server request terabytes, and a failed allocation aborts the process" % origin_str(o)[:100])
+    return r
